@@ -96,6 +96,11 @@ func genFree(w *bufio.Writer, root string, seed uint64, n, ops int) {
 		if straddle {
 			roll = r.pick([]int64{60000, 200000})
 		}
+		// "cold" histories (see below) want several closed segments
+		cold := !straddle && r.intn(3) == 0
+		if cold {
+			roll = r.pick([]int64{512, 512, 1024})
+		}
 		fmt.Fprintf(w, "# hist %d seed=%d flavor=free\n", h, seed)
 		l, err := klevdb.Open(dir, klevdb.Options{CreateDirs: true, KeyIndex: true, TimeIndex: true, Rollover: roll, AutoSync: as,
 			Version: klevdb.VersionOptions{NewSegmentsVersion: klevdb.V2, KeepRewriteVersion: keep}})
@@ -126,7 +131,6 @@ func genFree(w *bufio.Writer, root string, seed uint64, n, ops int) {
 		// "cold" histories: the log already holds a few segments, written by an earlier session, and the index files of
 		// (most of) its closed segments are missing - a supported state: they are rebuilt on first use. Several readers
 		// then meet a closed segment for the first time at the same moment.
-		cold := !straddle && r.intn(4) == 0
 		if cold {
 			cr := &rng{s: r.next()}
 			for i, n := 0, 10+cr.intn(14); i < n; i++ {
@@ -165,7 +169,7 @@ func genFree(w *bufio.Writer, root string, seed uint64, n, ops int) {
 			sort.Strings(idx)
 			removed := 0
 			for i, name := range idx {
-				if i < len(idx)-1 && cr.chance(75) {
+				if i < len(idx)-1 && cr.chance(90) {
 					_ = os.Remove(filepath.Join(dir, name))
 					removed++
 				}
@@ -177,8 +181,10 @@ func genFree(w *bufio.Writer, root string, seed uint64, n, ops int) {
 				continue
 			}
 			fmt.Fprintf(w, "fr.cold segments=%d indexes-removed=%d => ok\n", len(idx), removed)
-			nCons, nGet = 3, 2
+			nCons, nGet = 4, 3
 		}
+		// all goroutines of a history start together (in a cold history: meet the closed segments together)
+		start := make(chan struct{})
 		var wg sync.WaitGroup
 		gid := 0
 		spawn := func(f func(g int, r *rng)) {
@@ -188,6 +194,7 @@ func genFree(w *bufio.Writer, root string, seed uint64, n, ops int) {
 			wg.Add(1)
 			go func() {
 				defer wg.Done()
+				<-start
 				f(g, gr)
 			}()
 		}
@@ -412,6 +419,7 @@ func genFree(w *bufio.Writer, root string, seed uint64, n, ops int) {
 				}
 			})
 		}
+		close(start)
 		done := make(chan struct{})
 		go func() { wg.Wait(); close(done) }()
 		select {
